@@ -22,6 +22,13 @@ type ReplayOpts struct {
 	After func(i int, err error)
 }
 
+// refArena is the shared "read buffer" of by-reference deliveries (see Call).
+// Not goroutine safe: ScribbleRefs is only used by single-goroutine cases.
+var (
+	refArena [4096]byte
+	refCalls uint64
+)
+
 // Call performs a single event on v.
 func Call(v structform.ExtVisitor, e val.Event, scribble bool) error {
 	switch e.K {
@@ -68,14 +75,32 @@ func Call(v structform.ExtVisitor, e val.Event, scribble bool) error {
 	case val.EFloat64:
 		return v.OnFloat64(math.Float64frombits(e.F))
 	case val.EStringRef, val.EKeyRef:
-		buf := []byte(e.S)
+		var buf []byte
+		reuse := false
+		if scribble {
+			// Alternate between the two things a producer legitimately does
+			// with the memory behind a by-reference string: (a) a private
+			// buffer overwritten with filler right after the callback, (b) ONE
+			// read buffer used for every string, so that the next string or
+			// key of the same length replaces the bytes with other plausible
+			// content (what a parser reading document after document into the
+			// same buffer does).
+			refCalls++
+			reuse = refCalls%2 == 0 && len(e.S) <= len(refArena)
+		}
+		if reuse {
+			buf = refArena[:len(e.S):len(e.S)]
+			copy(buf, e.S)
+		} else {
+			buf = []byte(e.S)
+		}
 		var err error
 		if e.K == val.EStringRef {
 			err = v.OnStringRef(buf)
 		} else {
 			err = v.OnKeyRef(buf)
 		}
-		if scribble {
+		if scribble && !reuse {
 			for i := range buf {
 				buf[i] = 0xAA
 			}
@@ -148,6 +173,7 @@ func Call(v structform.ExtVisitor, e val.Event, scribble bool) error {
 func Replay(s val.Stream, v structform.Visitor, o ReplayOpts) error {
 	ev := structform.EnsureExtVisitor(v)
 	var first error
+	refCalls = 0 // the alternation of Call is a function of the stream, not of the process history
 	for i, e := range s {
 		err := Call(ev, e, o.ScribbleRefs)
 		if o.After != nil {
